@@ -665,7 +665,7 @@ func (w *World) newValue(o Op, into *Cont) (MV, atree.Value, error) {
 		if into != nil {
 			addr = into.SID.Address()
 		}
-		ch, err := w.NewCont(isMap, addr, 7, comp)
+		ch, err := w.NewCont(isMap, addr, contClassType(cl), comp)
 		if err != nil {
 			return nil, nil, err
 		}
@@ -715,7 +715,28 @@ func isContClass(cl string) bool {
 	if strings.HasPrefix(rest, "c") {
 		rest = rest[1:]
 	}
+	for rest != "" && rest[0] >= '0' && rest[0] <= '9' {
+		rest = rest[1:]
+	}
 	return rest == "" || rest[0] == ':'
+}
+
+// contClassType: optional digits after A / M / Mc give the type id of the new container (default 7).
+func contClassType(cl string) uint64 {
+	rest := cl[1:]
+	if strings.HasPrefix(rest, "c") {
+		rest = rest[1:]
+	}
+	n, have := uint64(0), false
+	for rest != "" && rest[0] >= '0' && rest[0] <= '9' {
+		n = n*10 + uint64(rest[0]-'0')
+		have = true
+		rest = rest[1:]
+	}
+	if !have {
+		return 7
+	}
+	return n
 }
 
 func attach(mv MV, parent *Cont) {
